@@ -65,6 +65,8 @@ def case(draw, tier="quick"):
         c[2, 0] = draw(st.sampled_from([0.0, 1e-4, 0.0]))
         c[2, 1] = draw(st.sampled_from([0.0, -3e-5, 0.0]))
         spec["cell"] = c.tolist()
+    # charges and coordinates with all six printed decimals in use
+    spec["charges"] = [round(c + (1 if c > 0 else -1) * 1e-6 * draw(st.integers(0, 499)), 6) for c in spec["charges"]]
     norm = draw(st.booleans())
     if norm:
         spec["pair_coeffs"] = [normalise(c, "pair") for c in spec["pair_coeffs"]]
